@@ -2207,4 +2207,516 @@ theorem members_tail : ∀ (l : List (Py × Py)), (∀ kv ∈ l, ∃ s, kv.1 = .
       simp only [renderMembersTail, List.cons_append, List.append_assoc, parseMembersTail, h1, Option.bind_some, h2]
 end
 
+/-! ## Part I: the C08 link invariant for EVERY object graph `load` returns, and for the finished copy -/
+
+def LinksOK (A : List Cell) : Prop := ∀ j, cellOK A j
+
+/-- the parent fields of a cell: `some link` for an Expression, `none` for a scalar / DType -/
+def lk : Cell → Option (Option Link)
+  | .node _ _ _ _ _ l _ => some l
+  | _ => none
+
+theorem LinkIs_iff (A : List Cell) (r : Nat) (l : Link) :
+    LinkIs A r l ↔ ∃ c, A[r]? = some c ∧ (lk c = none ∨ lk c = some (some l)) := by
+  unfold LinkIs
+  cases h : A[r]? with
+  | none => simp
+  | some c => cases c <;> simp [lk]
+
+theorem LinkIs_transfer {A A' : List Cell} {r : Nat} {l : Link}
+    (h : ∀ c, A[r]? = some c → ∃ c', A'[r]? = some c' ∧ lk c' = lk c) (hl : LinkIs A r l) : LinkIs A' r l := by
+  rw [LinkIs_iff] at hl ⊢
+  obtain ⟨c, hc, hk⟩ := hl
+  obtain ⟨c', hc', hk'⟩ := h c hc
+  exact ⟨c', hc', by rw [hk']; exact hk⟩
+
+theorem refsOK_mono {A A' : List Cell} (h : ∀ r l, LinkIs A r l → LinkIs A' r l) (p : Nat) (k : String) :
+    ∀ (rs : List Nat) (n : Nat), refsOK A p k n rs → refsOK A' p k n rs := by
+  intro rs
+  induction rs with
+  | nil => intro n _; trivial
+  | cons r rs ih => intro n hr; exact ⟨h _ _ hr.1, ih (n + 1) hr.2⟩
+
+theorem slotsOK_mono {A A' : List Cell} (h : ∀ r l, LinkIs A r l → LinkIs A' r l) (p : Nat) :
+    ∀ (s : Slots), slotsOK A p s → slotsOK A' p s := by
+  intro s
+  induction s with
+  | nil => intro _; trivial
+  | cons x xs ih =>
+    obtain ⟨k, sl⟩ := x
+    cases sl with
+    | one r => intro hs; exact ⟨h _ _ hs.1, ih hs.2⟩
+    | many rs => intro hs; exact ⟨refsOK_mono h p k rs 0 hs.1, ih hs.2⟩
+
+def slotOK (A : List Cell) (p : Nat) (k : String) : Slot → Prop
+  | .one r => LinkIs A r ⟨p, k, none⟩
+  | .many rs => refsOK A p k 0 rs
+
+theorem slotsOK_lookup {A : List Cell} {p : Nat} : ∀ (s : Slots) (k : String) (sl : Slot),
+    slotsOK A p s → lookupKey k s = some sl → slotOK A p k sl := by
+  intro s
+  induction s with
+  | nil => intro k sl _ h; simp [lookupKey] at h
+  | cons x xs ih =>
+    obtain ⟨k', sl'⟩ := x
+    intro k sl hs h
+    by_cases hk : k' = k
+    · simp [lookupKey, hk] at h
+      subst h; subst hk
+      cases sl' with
+      | one r => exact hs.1
+      | many rs => exact hs.1
+    · simp [lookupKey, hk] at h
+      cases sl' with
+      | one r => exact ih k sl hs.2 h
+      | many rs => exact ih k sl hs.2 h
+
+theorem slotsOK_setKey {A : List Cell} {p : Nat} (k : String) (sl : Slot) (hsl : slotOK A p k sl) :
+    ∀ (s : Slots), slotsOK A p s → slotsOK A p (setKey k sl s) := by
+  intro s
+  induction s with
+  | nil =>
+    intro _
+    cases sl with
+    | one r => exact ⟨hsl, trivial⟩
+    | many rs => exact ⟨hsl, trivial⟩
+  | cons x xs ih =>
+    obtain ⟨k', sl'⟩ := x
+    intro hs
+    by_cases hk : k' = k
+    · simp only [setKey, hk, if_true]
+      cases sl' with
+      | one r' => cases sl with
+        | one r => exact ⟨hsl, hs.2⟩
+        | many rs => exact ⟨hsl, hs.2⟩
+      | many rs' => cases sl with
+        | one r => exact ⟨hsl, hs.2⟩
+        | many rs => exact ⟨hsl, hs.2⟩
+    · simp only [setKey, hk, if_false]
+      cases sl' with
+      | one r' => exact ⟨hs.1, ih hs.2⟩
+      | many rs' => exact ⟨hs.1, ih hs.2⟩
+
+theorem slotsOK_eraseKey {A : List Cell} {p : Nat} (k : String) :
+    ∀ (s : Slots), slotsOK A p s → slotsOK A p (eraseKey k s) := by
+  intro s
+  induction s with
+  | nil => intro _; trivial
+  | cons x xs ih =>
+    obtain ⟨k', sl'⟩ := x
+    intro hs
+    by_cases hk : k' = k
+    · simp only [eraseKey, hk, if_true]
+      cases sl' <;> exact hs.2
+    · simp only [eraseKey, hk, if_false]
+      cases sl' with
+      | one r' => exact ⟨hs.1, ih hs.2⟩
+      | many rs' => exact ⟨hs.1, ih hs.2⟩
+
+theorem refsOK_snoc {A : List Cell} {p : Nat} {k : String} : ∀ (rs : List Nat) (n j : Nat),
+    refsOK A p k n rs → LinkIs A j ⟨p, k, some (n + rs.length)⟩ → refsOK A p k n (rs ++ [j]) := by
+  intro rs
+  induction rs with
+  | nil => intro n j _ hj; exact ⟨by simpa using hj, trivial⟩
+  | cons r rs ih =>
+    intro n j hr hj
+    refine ⟨hr.1, ih (n + 1) j hr.2 ?_⟩
+    have : n + 1 + rs.length = n + (r :: rs).length := by simp; omega
+    rw [this]; exact hj
+
+/-- a freshly built object: a scalar, or an Expression without children yet -/
+def freshCell : Cell → Prop
+  | .node _ _ _ _ args _ _ => args = []
+  | _ => True
+
+theorem linkIs_step {A : List Cell} (idx : Nat) (cls ty c m args l h cls' ty' c' m' args' h')
+    (hget : A[idx]? = some (Cell.node cls ty c m args l h)) (cells : List Cell) :
+    ∀ r lk', LinkIs A r lk' → LinkIs (A.set idx (Cell.node cls' ty' c' m' args' l h') ++ cells) r lk' := by
+  have hlt := lt_of_get hget
+  intro r lk' hl
+  apply LinkIs_transfer _ hl
+  intro c0 hc0
+  have hr := lt_of_get hc0
+  by_cases hri : r = idx
+  · subst hri
+    rw [hget] at hc0
+    have := Option.some.inj hc0
+    subst this
+    exact ⟨_, get_set_append _ _ _ _ hlt, rfl⟩
+  · refine ⟨c0, ?_, rfl⟩
+    rw [List.getElem?_append_left (by simpa using hr), List.getElem?_set_ne (fun e => hri e.symm), hc0]
+
+/-- the heart of it: replace the args of the node at `idx` by `args'` (same parent fields) and append fresh cells;
+    if `args'` is consistent in the result, the whole result is -/
+theorem links_step {A : List Cell} (hA : LinksOK A) (idx : Nat) (cls ty c m args l h cls' ty' c' m' args' h')
+    (hget : A[idx]? = some (Cell.node cls ty c m args l h)) (cells : List Cell)
+    (hfresh : ∀ x ∈ cells, freshCell x)
+    (hnew : slotsOK (A.set idx (Cell.node cls' ty' c' m' args' l h') ++ cells) idx args') :
+    LinksOK (A.set idx (Cell.node cls' ty' c' m' args' l h') ++ cells) := by
+  have hlt := lt_of_get hget
+  have hmono := linkIs_step idx cls ty c m args l h cls' ty' c' m' args' h' hget cells
+  intro j
+  unfold cellOK
+  by_cases hj : j < A.length
+  · by_cases hji : j = idx
+    · subst hji
+      rw [get_set_append _ _ _ _ hlt]
+      exact hnew
+    · rw [List.getElem?_append_left (by simpa using hj), List.getElem?_set_ne (fun e => hji e.symm)]
+      have := hA j
+      unfold cellOK at this
+      cases hc : A[j]? with
+      | none => trivial
+      | some c0 =>
+        rw [hc] at this
+        cases c0 with
+        | node cls2 ty2 c2 m2 args0 l' h0 => exact slotsOK_mono hmono j args0 this
+        | dtype s => trivial
+        | raw r => trivial
+  · rw [List.getElem?_append_right (by simpa using Nat.le_of_not_lt hj)]
+    cases hc : cells[j - (A.set idx (Cell.node cls' ty' c' m' args' l h')).length]? with
+    | none => trivial
+    | some c0 =>
+      have := hfresh c0 (List.mem_of_getElem? hc)
+      cases c0 with
+      | node cls2 ty2 c2 m2 args0 l' h0 => simp only [freshCell] at this; subst this; trivial
+      | dtype s => trivial
+      | raw r => trivial
+
+theorem lk_eH (c : Cell) : lk (eH c) = lk c := by cases c <;> rfl
+
+theorem linksOK_of_mapE {A B : List Cell} (h : mapE A = mapE B) (hA : LinksOK A) : LinksOK B := by
+  have htr : ∀ r l, LinkIs A r l → LinkIs B r l := by
+    intro r l hl
+    apply LinkIs_transfer _ hl
+    intro c hc
+    have hg := mapE_get h r
+    cases hc' : B[r]? with
+    | none => simp [hc, hc'] at hg
+    | some c' =>
+      simp only [hc, hc', Option.map_some, Option.some.injEq] at hg
+      exact ⟨c', rfl, by rw [← lk_eH c', ← hg, lk_eH]⟩
+  intro j
+  have := hA j
+  unfold cellOK at this ⊢
+  have hg := mapE_get h j
+  cases hc' : B[j]? with
+  | none => trivial
+  | some c' =>
+    cases hc : A[j]? with
+    | none => simp [hc, hc'] at hg
+    | some c =>
+      simp only [hc, hc', Option.map_some, Option.some.injEq] at hg
+      rw [hc] at this
+      cases c' with
+      | node cls ty cm m args l hh =>
+        have : eH c = .node cls ty cm m args l none := by rw [hg]; simp [eH]
+        obtain ⟨h1, rfl⟩ := eH_node this
+        simp only at *
+        exact slotsOK_mono htr j args (by assumption)
+      | dtype s => trivial
+      | raw r => trivial
+
+theorem linkIs_new (B : List Cell) (cell : Cell) (lnk : Link) (n : Nat) (hn : n = B.length) :
+    LinkIs (B ++ [cell.withLink lnk]) n lnk := by
+  subst hn
+  rw [LinkIs_iff]
+  refine ⟨cell.withLink lnk, by simp, ?_⟩
+  cases cell <;> simp [Cell.withLink, lk]
+
+theorem freshCell_withLink (cell : Cell) (lnk : Link) (h : freshCell cell) : freshCell (cell.withLink lnk) := by
+  cases cell <;> simp_all [Cell.withLink, freshCell]
+
+theorem attach_links (A : List Cell) (cell : Cell) (idx : Nat) (k : String) (arr : Bool) (A' : List Cell)
+    (hA : LinksOK A) (hf : freshCell cell) (h : attach A cell idx k arr = some A') : LinksOK A' := by
+  unfold attach at h
+  split at h
+  · have hB : LinksOK (clearUp A A.length idx) := linksOK_of_mapE (clearUp_mapE A.length A idx).symm hA
+    have hBlen : (clearUp A A.length idx).length = A.length := mapE_len_eq (clearUp_mapE A.length A idx)
+    simp only at h
+    split at h
+    · rename_i cls ty c m args l hh hget
+      simp at h
+      subst h
+      have hargs : slotsOK (clearUp A A.length idx) idx args := by
+        have := hB idx
+        unfold cellOK at this
+        rw [hget] at this
+        exact this
+      apply links_step hB idx cls ty c m args l hh cls ty c m _ hh hget
+      · intro x hx; simp at hx; subst hx; exact freshCell_withLink cell _ hf
+      · -- the new args are consistent in the result
+        have hmono := linkIs_step idx cls ty c m args l hh cls ty c m
+          (linkArgs args k arr A.length cell.isRawNull).1 hh hget
+          [cell.withLink ⟨idx, k, (linkArgs args k arr A.length cell.isRawNull).2⟩]
+        have hargsR := slotsOK_mono hmono idx args hargs
+        have hnewcell : LinkIs ((clearUp A A.length idx).set idx
+              (Cell.node cls ty c m (linkArgs args k arr A.length cell.isRawNull).1 l hh) ++
+            [cell.withLink ⟨idx, k, (linkArgs args k arr A.length cell.isRawNull).2⟩]) A.length
+            ⟨idx, k, (linkArgs args k arr A.length cell.isRawNull).2⟩ :=
+          linkIs_new _ cell _ A.length (by simp [hBlen])
+        generalize hR : ((clearUp A A.length idx).set idx
+              (Cell.node cls ty c m (linkArgs args k arr A.length cell.isRawNull).1 l hh) ++
+            [cell.withLink ⟨idx, k, (linkArgs args k arr A.length cell.isRawNull).2⟩]) = R at hnewcell hargsR ⊢
+        clear hR
+        unfold linkArgs at hnewcell ⊢
+        by_cases ha : arr = true
+        · simp only [ha, if_true] at hnewcell ⊢
+          unfold appendRef at hnewcell ⊢
+          cases hl : lookupKey k args with
+          | none =>
+            simp only [hl] at hnewcell ⊢
+            exact slotsOK_setKey k (.many [A.length])
+              (show refsOK R idx k 0 [A.length] from ⟨hnewcell, trivial⟩) args hargsR
+          | some sl =>
+            cases sl with
+            | one r0 =>
+              simp only [hl] at hnewcell ⊢
+              exact slotsOK_setKey k (.many [A.length])
+                (show refsOK R idx k 0 [A.length] from ⟨hnewcell, trivial⟩) args hargsR
+            | many rs =>
+              simp only [hl] at hnewcell ⊢
+              have hrs : refsOK R idx k 0 rs := slotsOK_lookup args k _ hargsR hl
+              exact slotsOK_setKey k (.many (rs ++ [A.length]))
+                (show refsOK R idx k 0 (rs ++ [A.length]) from
+                  refsOK_snoc rs 0 A.length hrs (by simpa using hnewcell)) args hargsR
+        · simp only [ha, Bool.false_eq_true, if_false] at hnewcell ⊢
+          by_cases hnull : cell.isRawNull = true
+          · simp only [hnull, if_true]
+            exact slotsOK_eraseKey k args hargsR
+          · simp only [hnull, Bool.false_eq_true, if_false] at hnewcell ⊢
+            exact slotsOK_setKey k (.one A.length)
+              (show LinkIs R A.length ⟨idx, k, none⟩ from hnewcell) args hargsR
+    · simp at h
+  · simp at h
+
+
+theorem mkCell_fresh {p : Payload} {cell : Cell} (h : mkCell p = some cell) : freshCell cell := by
+  rcases mkCell_inv h with ⟨s, rfl⟩ | ⟨r, rfl⟩ | ⟨cn, t, c, m, rfl⟩ <;> simp [freshCell]
+
+theorem loadList_links : ∀ (ps : List Payload) (A A' : List Cell), LinksOK A → loadList ps A = some A' → LinksOK A' := by
+  intro ps
+  induction ps with
+  | nil => intro A A' hA h; simp [loadList] at h; subst h; exact hA
+  | cons p ps ih =>
+    intro A A' hA h
+    simp only [loadList] at h
+    cases hc : mkCell p with
+    | none => simp [hc] at h
+    | some cell =>
+      simp only [hc] at h
+      cases hi : pIndex p with
+      | none => simp [hi] at h
+      | some idx =>
+        cases hk : pKey p with
+        | none => simp [hi, hk] at h
+        | some k =>
+          simp only [hi, hk] at h
+          cases hat : attach A cell idx k (pArr p) with
+          | none => simp [hat] at h
+          | some A1 =>
+            simp only [hat] at h
+            exact ih A1 A' (attach_links A cell idx k (pArr p) A1 hA (mkCell_fresh hc) hat) h
+
+theorem linksOK_single (c : Cell) (hc : freshCell c) : LinksOK [c] := by
+  intro j
+  unfold cellOK
+  cases j with
+  | zero =>
+    cases c with
+    | node cls ty cm m args l h => simp only [freshCell] at hc; subst hc; simp [slotsOK]
+    | dtype s => simp
+    | raw r => simp
+  | succ n => simp
+
+theorem loadArena_links (ps : List Payload) (A : List Cell) (h : loadArena ps = some A) : LinksOK A := by
+  cases ps with
+  | nil => simp [loadArena] at h; subst h; intro j; simp [cellOK]
+  | cons p tail =>
+    simp only [loadArena] at h
+    cases hr : mkRoot p with
+    | none => simp [hr] at h
+    | some root =>
+      simp only [hr] at h
+      have hroot : freshCell root := by
+        obtain ⟨i, k, a, cls, ty, c, m, value⟩ := p
+        cases cls with
+        | none => simp [mkRoot] at hr
+        | some cn =>
+          simp only [mkRoot] at hr
+          rcases mkObj_inv hr with ⟨s, rfl⟩ | ⟨t, m', rfl⟩ <;> simp [freshCell]
+      exact loadList_links tail [root] A (linksOK_single root hroot) h
+
+theorem toCell_fresh (v : Val) : freshCell v.toCell := by
+  cases v <;> simp [Val.toCell, emptyCell, freshCell]
+
+theorem assignArg_links (A : List Cell) (j : Nat) (k : String) (s : Slot) (cells : List Cell) (A' : List Cell)
+    (hA : LinksOK A) (hfresh : ∀ x ∈ cells, freshCell x)
+    (hs : ∀ R : List Cell, (∀ i, (hi : i < cells.length) → R[A.length + i]? = some cells[i]) → slotOK R j k s)
+    (h : assignArg A j k s cells = some A') : LinksOK A' := by
+  unfold assignArg at h
+  split at h
+  · rename_i cls ty c m args l hh hget
+    simp at h
+    subst h
+    have hargs : slotsOK A j args := by
+      have := hA j
+      unfold cellOK at this
+      rw [hget] at this
+      exact this
+    apply links_step hA j cls ty c m args l hh cls ty c m _ hh hget cells hfresh
+    have hmono := linkIs_step j cls ty c m args l hh cls ty c m (setKey k s args) hh hget cells
+    refine slotsOK_setKey k s (hs _ ?_) args (slotsOK_mono hmono j args hargs)
+    intro i hi
+    rw [List.getElem?_append_right (by simp)]
+    simp [hi]
+  · simp at h
+
+theorem fillCell_links (A : List Cell) (j : Nat) (c : Comments) (ty : Option Val) (m : Meta) (hv : Option Nat)
+    (A' : List Cell) (hA : LinksOK A) (h : fillCell A j c ty m hv = some A') : LinksOK A' := by
+  unfold fillCell at h
+  split at h
+  · rename_i cls ty0 c0 m0 args l hh hget
+    simp at h
+    subst h
+    have hargs : slotsOK A j args := by
+      have := hA j
+      unfold cellOK at this
+      rw [hget] at this
+      exact this
+    have := links_step hA j cls ty0 c0 m0 args l hh cls ty c m args hv hget [] (by simp)
+      (slotsOK_mono (linkIs_step j cls ty0 c0 m0 args l hh cls ty c m args hv hget []) j args hargs)
+    simpa using this
+  · simp at h
+
+/-- **the finished copy satisfies the C08 link invariant** -/
+theorem copy_links (hashOf : Val → Option Nat) (t : Val) (B : List Cell)
+    (h : copyArena hashOf t = some B) : LinksOK B := by
+  unfold copyArena copyLoop at h
+  refine copyLoopWith_pres attach hashOf LinksOK ?_ ?_ ?_ ?_ _ _ _ _ (linksOK_single _ (toCell_fresh t)) h
+  · intro A v j k arr A' hA hat; exact attach_links A v.toCell j k arr A' hA (toCell_fresh v) hat
+  · intro A j k v A' hA hn has
+    refine assignArg_links A j k _ _ A' hA (by intro x hx; simp at hx; subst hx; exact toCell_fresh v) ?_ has
+    intro R hR
+    have h0 := hR 0 (by simp)
+    simp only [List.getElem_cons_zero, Nat.add_zero] at h0
+    show LinkIs R A.length ⟨j, k, none⟩
+    rw [LinkIs_iff]
+    refine ⟨v.toCell, h0, Or.inl ?_⟩
+    cases v <;> simp_all [Val.toCell, Val.isNode, lk]
+  · intro A j k A' hA has
+    exact assignArg_links A j k (.many []) [] A' hA (by simp) (fun R _ => (show refsOK R j k 0 [] from trivial)) has
+  · intro A j c ty m v A' hA hf; exact fillCell_links A j c ty m _ A' hA hf
+
+/-- **no node is reachable twice**: if an Expression cell is stored under two slot addresses, they are the same address -/
+theorem linkIs_unique {A : List Cell} {r : Nat} {l l' : Link} {cls ty c m args lnk h}
+    (hr : A[r]? = some (Cell.node cls ty c m args lnk h)) (h1 : LinkIs A r l) (h2 : LinkIs A r l') : l = l' := by
+  unfold LinkIs at h1 h2
+  rw [hr] at h1 h2
+  simp only at h1 h2
+  rw [h1] at h2
+  exact Option.some.inj h2
+
+/-! ## Part J: enum codec -/
+
+theorem decodeEnum_hit (b : EnumBy) : ∀ (T : List (String × String)), (T.map (enumFace b)).Nodup →
+    ∀ e ∈ T, ∀ s, enumFace b e = some s → decodeEnum T b s = some e := by
+  intro T
+  induction T with
+  | nil => intro _ e he; simp at he
+  | cons x xs ih =>
+    intro hnd e he s hs
+    simp only [List.map_cons, List.nodup_cons] at hnd
+    simp only [List.mem_cons] at he
+    unfold decodeEnum
+    rcases he with rfl | he
+    · simp [List.find?, hs]
+    · have hne : enumFace b x ≠ some s := by
+        intro hx
+        apply hnd.1
+        rw [hx, ← hs]
+        exact List.mem_map_of_mem he
+      have : (enumFace b x == some s) = false := by simpa using hne
+      simp only [List.find?, this]
+      exact ih hnd.2 e he s hs
+
+/-- both sides use the same face, distinct on the table: every member survives -/
+theorem enum_codec_roundtrip (T : List (String × String)) (b : EnumBy) (hb : b ≠ .other)
+    (hnd : (T.map (enumFace b)).Nodup) (e : String × String) (he : e ∈ T) :
+    (encodeEnum b e).bind (decodeEnum T b) = some e := by
+  cases b with
+  | other => exact absurd rfl hb
+  | value => simp [encodeEnum, enumFace]; exact decodeEnum_hit .value T hnd e he e.2 rfl
+  | name => simp [encodeEnum, enumFace]; exact decodeEnum_hit .name T hnd e he e.1 rfl
+
+/-! ## Part K: the fold behind `==` is invariant under `norm` and under the `type` view -/
+
+theorem itemOne_norm (R : HashRules) (raw : Bool) (k : String) (v : Val) (h : (v.norm).nf R = v.nf R) :
+    itemOne R raw k v.norm ((v.norm).nf R) = itemOne R raw k v (v.nf R) := by
+  cases v <;> simp_all [Val.norm, itemOne]
+
+theorem itemElem_norm (R : HashRules) (k : String) (v : Val) (h : (v.norm).nf R = v.nf R) :
+    itemElem R k v.norm ((v.norm).nf R) = itemElem R k v (v.nf R) := by
+  cases v <;> simp_all [Val.norm, itemElem]
+
+theorem itemOne_null (R : HashRules) (raw : Bool) (k : String) (v : Val) (n : EqK) (h : v.isNull = true) :
+    itemOne R raw k v n = [] := by
+  cases v with
+  | node => simp [Val.isNull] at h
+  | dtype => simp [Val.isNull] at h
+  | raw r => cases r <;> simp_all [Val.isNull, itemOne, nfRaw, nfRawTruthy]
+
+/- `==` cannot see what `load ∘ dump` erases: a tree and its normal form have the same fold -/
+mutual
+theorem nf_norm (R : HashRules) : ∀ (v : Val), (v.norm).nf R = v.nf R
+  | .node cls ty c m args => by simp [Val.norm, Val.nf, nfArgs_norm R (R.rawArgs cls) args]
+  | .dtype _ => by simp [Val.norm]
+  | .raw _ => by simp [Val.norm]
+theorem nfArgs_norm (R : HashRules) (raw : Bool) : ∀ (args : List Arg),
+    nfArgs R raw (normArgs args) = nfArgs R raw args
+  | [] => by simp [normArgs]
+  | .one k v :: as => by
+    by_cases hn : v.isNull = true
+    · simp [normArgs, Arg.dropped, hn, nfArgs, Arg.nfItems, itemOne_null R raw k v _ hn, nfArgs_norm R raw as]
+    · simp [normArgs, Arg.dropped, hn, nfArgs, Arg.nfItems, Arg.norm, itemOne_norm R raw k v (nf_norm R v),
+        nfArgs_norm R raw as]
+  | .many k vs :: as => by
+    by_cases hn : vs.isEmpty = true
+    · have : vs = [] := by cases vs <;> simp_all
+      subst this
+      simp [normArgs, Arg.dropped, nfArgs, Arg.nfItems, nfVals, nfArgs_norm R raw as]
+    · simp [normArgs, Arg.dropped, hn, nfArgs, Arg.nfItems, Arg.norm, normVals_isEmpty, nfVals_norm R k vs,
+        nfArgs_norm R raw as]
+theorem nfVals_norm (R : HashRules) (k : String) : ∀ (vs : List Val), nfVals R k (normVals vs) = nfVals R k vs
+  | [] => by simp [normVals]
+  | v :: vs => by simp [normVals, nfVals, itemElem_norm R k v (nf_norm R v), nfVals_norm R k vs]
+end
+
+theorem itemOne_view (R : HashRules) (TR : TypeRules) (raw : Bool) (k : String) (v : Val)
+    (h : (v.view TR).nf R = v.nf R) : itemOne R raw k (v.view TR) ((v.view TR).nf R) = itemOne R raw k v (v.nf R) := by
+  cases v <;> simp_all [Val.view, itemOne]
+
+theorem itemElem_view (R : HashRules) (TR : TypeRules) (k : String) (v : Val)
+    (h : (v.view TR).nf R = v.nf R) : itemElem R k (v.view TR) ((v.view TR).nf R) = itemElem R k v (v.nf R) := by
+  cases v <;> simp_all [Val.view, itemElem]
+
+/- … nor which `_type` a node carries (`type`-view or raw) -/
+mutual
+theorem nf_view (R : HashRules) (TR : TypeRules) : ∀ (v : Val), (v.view TR).nf R = v.nf R
+  | .node cls ty c m args => by simp [Val.view, Val.nf, nfArgs_view R TR (R.rawArgs cls) args]
+  | .dtype _ => by simp [Val.view]
+  | .raw _ => by simp [Val.view]
+theorem nfArgs_view (R : HashRules) (TR : TypeRules) (raw : Bool) : ∀ (args : List Arg),
+    nfArgs R raw (viewArgs TR args) = nfArgs R raw args
+  | [] => by simp [viewArgs]
+  | .one k v :: as => by
+    simp [viewArgs, Arg.view, nfArgs, Arg.nfItems, itemOne_view R TR raw k v (nf_view R TR v), nfArgs_view R TR raw as]
+  | .many k vs :: as => by
+    simp [viewArgs, Arg.view, nfArgs, Arg.nfItems, viewVals_isEmpty, nfVals_view R TR k vs, nfArgs_view R TR raw as]
+theorem nfVals_view (R : HashRules) (TR : TypeRules) (k : String) : ∀ (vs : List Val),
+    nfVals R k (viewVals TR vs) = nfVals R k vs
+  | [] => by simp [viewVals]
+  | v :: vs => by simp [viewVals, nfVals, itemElem_view R TR k v (nf_view R TR v), nfVals_view R TR k vs]
+end
+
 end SqlglotModel.Serde
